@@ -25,6 +25,13 @@ func c18FaultProbeSystems() []*HistSys {
 			out = append(out, &HistSys{Class: c, Cfg: cfgTwoPools(false), NPods: 2, Replicas: 2, Ops: ops, PoolSize: 2, PrefixName: "sizedpool-onedeleted", Prefix: oneDeleted})
 		}
 	}
+	// the pod-IP sync path: the store is lost, galaxy-ipam restarted, and the IPs of running pods are adopted again (notification
+	// of a pod turning Running, periodic sync)
+	opsSync := map[string]bool{"create": true, "sched": true, "delete": true, "deliver": true, "resync": true, "run": true, "storeloss": true, "syncpodips": true}
+	for _, c := range []wkClass{{"sts", "immutable"}, {"bare", "never"}} {
+		out = append(out, &HistSys{Class: c, Cfg: cfgTwoPools(false), NPods: 2, Replicas: 2, Ops: opsSync, PrefixName: "syncpath",
+			Prefix: []Op{{Kind: "create", A: 0}, {Kind: "sched", A: 0}}})
+	}
 	return out
 }
 
